@@ -119,9 +119,11 @@ class Property:
 
 
 def _is_object_schema(schema: Mapping[str, Any]) -> bool:
-    # an object with flattened fields has an "allOf" schema
+    # an object with flattened fields has an "allOf" schema, whose branches are objects
+    # or references to (already checked) flattened objects
     return schema.get("type") in {JsonType.OBJECT, "object"} or (
-        "allOf" in schema and all(map(_is_object_schema, schema["allOf"]))
+        "allOf" in schema
+        and all(_is_object_schema(s) or "$ref" in s for s in schema["allOf"])
     )
 
 
